@@ -91,6 +91,7 @@ func GenImportProject(t *tape.Tape, maxFiles int) []ImportFile {
 }
 
 func genImportFile(t *tape.Tape, cls string, pkg string) ImportFile {
+	defaultPkg := pkg == ""
 	if pkg == "" {
 		pkg = "root"
 	}
@@ -178,9 +179,13 @@ func genImportFile(t *tape.Tape, cls string, pkg string) ImportFile {
 		}
 		add(" */")
 	}
-	add("package " + pkg + ";")
-	if t.Bool(1, 2) {
-		add("")
+	if defaultPkg && t.Bool(1, 3) {
+		// a class of the default package: no package declaration, the imports may start on line 1
+	} else {
+		add("package " + pkg + ";")
+		if t.Bool(1, 2) {
+			add("")
+		}
 	}
 	var out ImportFile
 	for _, pi := range perm {
@@ -398,6 +403,18 @@ func genImportFile(t *tape.Tape, cls string, pkg string) ImportFile {
 		add("    }")
 	}
 	add("}")
+	if t.Bool(1, 100) {
+		// a very large file (generated tables kept in a trailing comment): sizes beyond the usual
+		// fixed buffers (64 KiB, 1 MiB)
+		size := []int{70000, 1100000}[t.Pick(2)]
+		add("/*")
+		for n, k := 0, 0; n < size; k++ {
+			l := fmt.Sprintf(" * row %07d 0123456789abcdef0123456789abcdef0123456789abcdef0123456789abcdef", k)
+			add(l)
+			n += len(l) + 1
+		}
+		add(" */")
+	}
 	out.Text = strings.Join(lines, "\n") + "\n"
 	// byte-level variety: the frame condition speaks about bytes, so line terminators matter
 	switch t.Pick(8) {
